@@ -213,6 +213,9 @@ def finish(ctx, fam, scripts, trace_module, mutants, features, trace_cfg=None, e
         ctx.parts.append((cov, fam['assumptions'], len(res['violations'])))
     else:
         vlib.write_evidence(ctx, cov, fam['assumptions'], len(res['violations']))
+    if res.get('foreign_rules'):
+        log('[%s] rules of other properties / informational rules that rejected events: %s'
+            % (ctx.prop, ', '.join('%s x%d' % kv for kv in sorted(res['foreign_rules'].items()))))
     log('[%s] %d traces, %d events, %d rejected (%d foreign, %d known), %d violations; %.0fs'
         % (ctx.prop, len(traces), nev, len(bad), res['foreign'], len(res['known']), len(res['violations']),
            time.time() - ctx.t0))
